@@ -360,6 +360,13 @@ namespace hgraph
                             }
                             ref = graph_wiring_detail::adapt_source_for_input(w, expected, std::move(ref));
                             shapes.push_back(subgraph_wiring_detail::boundary_shape(ref, inputs.size(), {}));
+                            // A passive(x) argument is passive for whoever consumes it INSIDE the
+                            // sub-graph (as it is when the sub-graph is wired inline), not only for
+                            // the owning node's own input slot.
+                            if (ref.arg_tag == WiringPortRef::ArgTag::Passive)
+                            {
+                                shapes.back() = shapes.back().with_arg_tag(WiringPortRef::ArgTag::Passive);
+                            }
                             inputs.push_back(std::move(ref));
                         }
                     }(),
